@@ -470,15 +470,18 @@ static void run_cmd(int ntok, char **tok) {
         ev_end(); free(dig); free(cuts); free(d); hash_close(&h); zck_free(&z);
     }
     else if(!strcmp(op, "hdrscan")) {
-        /* hdrscan <path> <from> <to>: for every position p in [from,to) and every substitute byte value,
-         * try zck_init_read on a private copy; report the accepted (position,value) pairs only. */
+        /* hdrscan <path> <from> <to> [pin <hashtype> <digest_loc> <digest_size>]: for every position p in
+         * [from,to) and every substitute byte value, try to open a private copy; report the accepted
+         * (position,value) pairs only.  With "pin" the open goes through zck_init_adv_read with the header
+         * checksum type and the (mutated file's own) stored header checksum pinned, then read_lead+read_header. */
         size_t n; char *d = get_data(A(1), &n); long from = (long)AI(2), to = (long)AI(3);
+        int pin = !strcmp(A(4), "pin"); int pht = (int)AI(5); long dloc = (long)AI(6), dsz = (long)AI(7);
         if(to > (long)n) to = (long)n;
         int mfd = memfd_create("hdrscan", 0);
         ssize_t w = __real_write(mfd, d, n); (void)w;
         zck_set_log_level(ZCK_LOG_NONE);
         long tried = 0, acc = 0;
-        ev_begin("hdrscan"); ev_int("from", from); ev_int("to", to); ev_raw(",\"accepted\":[");
+        ev_begin("hdrscan"); ev_int("from", from); ev_int("to", to); ev_int("pin", pin); ev_raw(",\"accepted\":[");
         for(long p = from; p < to; p++) {
             unsigned char orig = (unsigned char)d[p];
             for(int v = 0; v < 256; v++) {
@@ -487,7 +490,17 @@ static void run_cmd(int ntok, char **tok) {
                 if(pwrite(mfd, &b, 1, p) != 1) continue;
                 __real_lseek(mfd, 0, SEEK_SET);
                 zckCtx *z = zck_create();
-                bool ok = zck_init_read(z, mfd);
+                bool ok;
+                if(!pin) ok = zck_init_read(z, mfd);
+                else {
+                    char hex[200]; unsigned char cur[64];
+                    if(dsz > 64) dsz = 64;
+                    if(pread(mfd, cur, dsz, dloc) != dsz) memset(cur, 0, sizeof cur);
+                    for(long k = 0; k < dsz; k++) snprintf(hex + 2 * k, 3, "%02x", cur[k]);
+                    ok = zck_init_adv_read(z, mfd) && zck_set_ioption(z, ZCK_VAL_HEADER_HASH_TYPE, pht)
+                         && zck_set_soption(z, ZCK_VAL_HEADER_DIGEST, hex, 2 * dsz)
+                         && zck_read_lead(z) && zck_read_header(z);
+                }
                 tried++;
                 if(ok) { char tmp[48]; snprintf(tmp, sizeof tmp, "%s[%ld,%d]", acc ? "," : "", p, v); ev_raw(tmp); acc++; }
                 zck_free(&z);
